@@ -139,6 +139,8 @@ def parse_edge_chain(e: ast.AST, resolver: Optional[Any] = None, depth: int = 0)
         if isinstance(part, ast.BoolOp) and isinstance(part.op, ast.And) and len(part.values) == 2:
             g, acc = part.values
             gf = self_attr(g)
+            if gf is None and isinstance(g, ast.Attribute) and g.attr == 'items':
+                gf = self_attr(g.value)          # `self._f.items and self._f.last_token`: the field counts only when it has items
             if gf is None or not isinstance(acc, ast.Attribute):
                 return None
             af = self_attr(acc.value)
